@@ -7,7 +7,7 @@ from impl import quiet, Panoptica_Aggregator
 from common import VERIF, same_value
 from props.c10 import summ_equal
 
-RULE = ("sequences of 3-12 operations over 1-3 real evaluators (default and explicit argument lists, class groups incl. "
+RULE = ("construction-only cases (decision metric outside the instance metrics, shared user lists, default lists: nothing the caller or another evaluator holds may change); sequences of 3-12 operations over 1-3 real evaluators (default and explicit argument lists, class groups incl. "
         "single-instance groups, decision metrics): evaluate(input, all 16 combinations of result_all/save_group_times/"
         "log_times/verbose), construct aggregator (log_times F/T), read resulting_metric_keys, save_to_config, construct "
         "a further evaluator with default arguments; after every operation: caller arrays byte-identical, result equal to a "
@@ -191,7 +191,54 @@ def pool_slice(ctx, n):
             ctx.violation(f"result differs between serial evaluation and the multiprocessing pool: {d}", inp, key={"kind": "pool-dependent"})
 
 
+def construction_cases(ctx, n):
+    """merely constructing an evaluator (any legal or illegal-to-evaluate combination of metric arguments, incl. a
+    decision metric that is not among the instance metrics) must not change the caller's argument lists, the default
+    arguments seen by later evaluators, or evaluators that already exist"""
+    rng = ctx.rng
+    M = impl.METRICS
+    for i in range(n):
+        with quiet():
+            a = impl.Panoptica_Evaluator()
+            keys_a = list(a.resulting_metric_keys)
+        user = [M[m] for m in rng.sample(["IOU", "DSC", "RVD", "ASSD"], rng.randint(1, 3))]
+        user0 = list(user)
+        outside = [m for m in ["IOU", "DSC", "ASSD", "RVD", "clDSC"] if M[m] not in user]
+        dm_user = M[rng.choice(outside)]
+        dm_default = M["clDSC"] if rng.random() < 0.7 else M[rng.choice(["IOU", "DSC"])]
+        ops = []
+        try:
+            with quiet():
+                if rng.random() < 0.6:
+                    impl.Panoptica_Evaluator(decision_metric=dm_default, decision_threshold=0.5)
+                    ops.append(["construct", "default-lists", dm_default.name])
+                if rng.random() < 0.7:
+                    impl.Panoptica_Evaluator(instance_metrics=user, decision_metric=dm_user, decision_threshold=0.5)
+                    ops.append(["construct", [m.name for m in user0], dm_user.name])
+                gml = [M["DSC"]]
+                impl.Panoptica_Evaluator(instance_metrics=user, global_metrics=gml)
+        except Exception as e:
+            ctx.count("construction_rejected." + type(e).__name__)
+        inp = {"ops": ops, "user_list": [m.name for m in user0], "src": f"construct{i}", "kind": "construction"}
+        ctx.case(inp, bool(ops))
+        ctx.count("construction_only")
+        if user != user0:
+            ctx.violation(f"constructing an evaluator changed the caller's instance_metrics list: {[m.name for m in user0]} -> {[m.name for m in user]}",
+                          inp, key={"kind": "mutates-argument"})
+        with quiet():
+            keys_a2 = list(a.resulting_metric_keys)
+            b = impl.Panoptica_Evaluator()
+            keys_b = list(b.resulting_metric_keys)
+        if keys_a2 != keys_a:
+            ctx.violation(f"an existing default evaluator advertises different metric keys after other evaluators were constructed "
+                          f"(only after: {sorted(set(keys_a2) - set(keys_a))})", inp, impl={"before": keys_a, "after": keys_a2}, key={"kind": "keys-changed"})
+        elif keys_b != keys_a:
+            ctx.violation(f"a default evaluator constructed later advertises different metric keys (only later: {sorted(set(keys_b) - set(keys_a))})",
+                          inp, impl={"before": keys_a, "after": keys_b}, key={"kind": "keys-changed"})
+
+
 def run(ctx):
+    construction_cases(ctx, ctx.scale(40, 400))
     for i in range(ctx.scale(60, 800)):
         one_history(ctx, f"rand{i}")
     pool_slice(ctx, ctx.scale(6, 60))
@@ -205,6 +252,9 @@ def search(ctx):
 def replay(ctx, rec):
     i = rec["input"]
     if i.get("kind") == "pool":
+        return
+    if i.get("kind") == "construction":
+        construction_cases(ctx, 40)
         return
     d = str(VERIF / ".work" / f"c15r_{os.getpid()}")
     os.makedirs(d, exist_ok=True)
